@@ -9,7 +9,7 @@ from harness import core, py2lean, instantiate
 from harness.core import Outcome, f2b, b2f
 
 ID = "C18"
-LEAN_TARGETS = ["BeyondVerif.Props.C18", "BeyondVerif.Props.C18Hist", "BeyondVerif.Props.C18Series", "BeyondVerif.Witness.C18"]
+LEAN_TARGETS = ["BeyondVerif.Props.C18", "BeyondVerif.Props.C18Hist", "BeyondVerif.Props.C18Arg", "BeyondVerif.Props.C18Series", "BeyondVerif.Witness.C18"]
 THEOREMS = [
     "BeyondVerif.C18.spk_chain",
     "BeyondVerif.C18.spk_offset",
@@ -30,6 +30,9 @@ THEOREMS = [
     "BeyondVerif.C18.history_independent",
     "BeyondVerif.C18.inplace_is_copy",
     "BeyondVerif.C18.object_tracks_body",
+    "BeyondVerif.C18.kernel_arg_is_tdb_jd",
+    "BeyondVerif.C18.kernel_arg_label_free",
+    "BeyondVerif.C18.kernel_arg_of_instant",
     "BeyondVerif.C18.sun_distance_range",
     "BeyondVerif.C18.moon_distance_range",
     "BeyondVerif.C18.sun_state_entries",
@@ -53,7 +56,10 @@ LEVEL_TEXT = ("Lean theorems about a model of create_frames / JplPropagator.prop
               "the difference of the centres' positions, the frame made from the orbit of a body as seen from either end of its segment (a non-Earth centre), whatever frame the orbit had been re-framed to, being centred on that body "
               "(spk_attached_frames, spk_as_frame); in EVERY world - whatever objects the caller holds, however he modified them in place, whatever admissible frames he attached - a "
               "request returns the vector the property states, a function of the kernel and the segment values at its date only (history_independent: the model, like the code, keeps no "
-              "memory between requests); orb.frame = b leaves in orb what orb.copy(frame=b) returns, still the position of its body (inplace_is_copy, object_tracks_body). Sun/Moon: the two series are translated "
+              "memory between requests); orb.frame = b leaves in orb what orb.copy(frame=b) returns, still the position of its body (inplace_is_copy, object_tracks_body). The TDB argument: the "
+              "expression JplPropagator.propagate hands to jplephem is read from the ASTs of propagate / Date.jd / Date.mjd on every run (Generated/JplArg); it is the Julian date of the TDB "
+              "conversion and reads nothing of the caller's date (kernel_arg_is_tdb_jd, kernel_arg_label_free - a mixed expression breaks the build), and on C03's model of Date two "
+              "caller dates of any scales whose TDB conversions denote one instant ask the kernel at one argument (kernel_arg_of_instant). Sun/Moon: the two series are translated "
               "from solarsystem.py on every run; for every T the position is distance x unit vector with the distance inside the range of its series, the velocity "
               "entries are the symmetric difference quotient of the positions, whose distance from the derivative is bounded by h^2/6 sup|f3| (general theorem, "
               "instantiated to the two steps read from the classes). The model is tied to the code by a differential correspondence on all ordered pairs of the real "
@@ -75,6 +81,8 @@ TRUSTED = [
     "harness/py2lean.py: translates SunPropagator._propagate / MoonPropagator._propagate (incl. the local degree-cos/sin) into Generated/SunMoon{F,R}.lean on every run",
     "beyond.dates (UTC -> TDB / UT1, julian_century): the three time arguments of the difference quotient are taken from the real Date objects (C03/C04)",
     "numpy / libm double arithmetic vs R: tolerance 1e-12 (SPK chaining, same operations in the same order) and 1e-10 (series)",
+    "harness/props/C18.py extract_kernel_arg: the reader of the kernel-argument expression (straight-line assignments of JplPropagator.propagate; anything it does not understand is refused and the check fails); own_tdb_jd: the TDB Julian date of an instant from the definitions of the scales and the IERS tables as parsed independently by C03",
+    "C03 (Model/Date.lean, Props C03.changeScale_instant): change_scale keeps the instant to 1.5 us; kernel_arg_of_instant builds on it",
     "harness/props/C18.py chain_direct: the independent 'chain the segments directly' reference used by the oracle (breadth-first walk over the pairs, jplephem values)",
 ]
 ASSUMPTIONS = [
@@ -105,6 +113,10 @@ RULE = ("correspondence: every ordered pair of the 16 bodies of de403_2000-2020.
         "histories: per configuration one exhaustive family (every segment through a hand-made propagator in both directions; the frame made from the orbit of every body against every "
         "body both ways; every body asked twice at one date with an in-place conversion of the first answer in between) and random histories of 36 requests over 1-3 dates, in both the "
         "correspondence (vs the Lean `run`, 1e-11 of the terms summed) and the oracle (vs the segments chained in the harness, 4e-12; 1e-8 after a change of form). "
+        "dates: the two ends of the kernel's span (UTC), then (day, seconds of day, scale) in all six scales, 70 % of the clock readings in the last / first 75 s or 4 ms of the day or at midnight "
+        "(the conversion to TDB crosses midnight), without IERS database (policy pass: zeros; both PCK configurations) and, third configuration, with the one of tests/data/pole (days inside its tables); "
+        "per date of a history the argument seen at the jplephem segments (tap on compute_and_differentiate) vs the Lean kernelArg fed with Date.d/Date.s of the date and of its TDB conversion (bit-exact), "
+        "vs the TDB Julian date computed here from the definitions of the scales (2e-9 d; 4e-8 d for UT1), and every request of the history asks the kernel at that argument only. "
         "oracle: the same calls against chaining the segments directly with jplephem (1e-12 of the summed magnitudes), antisymmetry, TDB argument, bit-identity with/without PCK, "
         "synthetic kernels; Sun/Moon vs DE403 at the property's accuracies, velocity vs derivative of the position within the theorem's bound")
 
@@ -132,6 +144,7 @@ def extract(ctx):
     if core.write_if_changed(os.path.join(core.LEAN, "BeyondVerif", "Generated", "JplKernel.lean"), text):
         changed.append("Generated/JplKernel.lean")
     changed += extract_series()
+    changed += extract_kernel_arg()
     changed += instantiate.main()
     return changed
 
@@ -153,6 +166,133 @@ def extract_series():
              f"def auMetres : R := ({float(units.AU)!r} : R)\n"
              f"def earthRadius : R := ({float(constants.Earth.r)!r} : R)\n")
     return py2lean.instantiate(core.LEAN, "SunMoon", body, "beyond/env/solarsystem.py")
+
+
+# ---------------------------------------------------------------- the argument handed to jplephem, read from the source
+
+DATE_PY = os.path.join(core.REPO, "beyond", "dates", "date.py")
+
+
+class ArgRefused(RuntimeError):
+    """the expression that forms the kernel argument is not one the reader understands"""
+
+
+def _tr_arg(node, env, consts):
+    """Python expression -> (Lean text, kind) with kind 'view' (a Date seen through its day number and seconds of day)
+    or 'num'.  env: python name -> (Lean text, kind)."""
+    import ast
+    if isinstance(node, ast.Constant) and isinstance(node.value, (int, float)) and not isinstance(node.value, bool):
+        return f"({float(node.value)!r} : R)", "num"
+    if isinstance(node, ast.Name):
+        if node.id in env:
+            return env[node.id]
+        if node.id in consts:
+            return f"({float(consts[node.id])!r} : R)", "num"
+        raise ArgRefused(f"name {node.id!r}")
+    if isinstance(node, ast.Attribute):
+        if isinstance(node.value, ast.Name) and node.value.id in ("Date", "self") and ("Date." + node.attr) in consts and node.value.id not in env:
+            return f"({float(consts['Date.' + node.attr])!r} : R)", "num"
+        base, kind = _tr_arg(node.value, env, consts)
+        if kind != "view":
+            raise ArgRefused(f"attribute .{node.attr} of a number")
+        if node.attr in ("d", "s"):
+            return f"{base}.{node.attr}", "num"
+        if node.attr == "mjd":
+            return f"(dateMjd {base})", "num"
+        if node.attr == "jd":
+            return f"(dateJd {base})", "num"
+        if ("Date." + node.attr) in consts:
+            return f"({float(consts['Date.' + node.attr])!r} : R)", "num"
+        raise ArgRefused(f"attribute .{node.attr} of a date")
+    if isinstance(node, ast.BinOp) and isinstance(node.op, (ast.Add, ast.Sub, ast.Mult, ast.Div)):
+        a, ka = _tr_arg(node.left, env, consts)
+        b, kb = _tr_arg(node.right, env, consts)
+        if ka != "num" or kb != "num":
+            raise ArgRefused("arithmetic on a date")
+        op = {"Add": "+", "Sub": "-", "Mult": "*", "Div": "/"}[type(node.op).__name__]
+        return f"({a} {op} {b})", "num"
+    raise ArgRefused(ast.dump(node)[:80])
+
+
+def _prop_return(tree, cls, name):
+    import ast
+    for c in tree.body:
+        if isinstance(c, ast.ClassDef) and c.name == cls:
+            for f in c.body:
+                if isinstance(f, ast.FunctionDef) and f.name == name:
+                    rets = [n for n in f.body if isinstance(n, ast.Return)]
+                    if len(rets) == 1 and all(isinstance(n, (ast.Return, ast.Expr)) for n in f.body):
+                        return rets[0].value
+    raise ArgRefused(f"{cls}.{name} is not a single return")
+
+
+def extract_kernel_arg():
+    """Generated/JplArg{F,R}.lean: `Date.mjd`, `Date.jd` and the argument of `segment.compute_and_differentiate(...)` in
+    `JplPropagator.propagate`, translated from the ASTs.  Names are followed through the straight-line assignments of the
+    method: the parameter is the caller's date, `<date>.change_scale("TDB")` its TDB conversion.  Anything else (another
+    scale, a date rebound inside a branch, an attribute the reader does not know) is refused: the check then fails."""
+    import ast
+    from beyond.dates import Date
+    from jplephem.spk import S_PER_DAY
+    consts = {"S_PER_DAY": S_PER_DAY, "Date.JD_MJD": Date.JD_MJD}
+    dtree = ast.parse(open(DATE_PY).read())
+    x = {"self": ("x", "view")}
+    mjd, _ = _tr_arg(_prop_return(dtree, "Date", "mjd"), x, consts)
+    jd, _ = _tr_arg(_prop_return(dtree, "Date", "jd"), x, consts)
+    jtree = ast.parse(open(JPL_PY).read())
+    fn = next(f for c in jtree.body if isinstance(c, ast.ClassDef) and c.name == "JplPropagator"
+              for f in c.body if isinstance(f, ast.FunctionDef) and f.name == "propagate")
+    param = fn.args.args[1].arg
+    env = {param: ("caller", "view")}
+    arg = None
+
+    def calls(node):
+        return [n for n in ast.walk(node) if isinstance(n, ast.Call) and isinstance(n.func, ast.Attribute) and n.func.attr == "compute_and_differentiate"]
+
+    for st in fn.body:
+        found = calls(st)
+        if found:
+            if len(found) != 1 or len(found[0].args) != 1 or found[0].keywords or not isinstance(st, ast.Assign):
+                raise ArgRefused("compute_and_differentiate is not called once, with one argument, in a plain assignment")
+            arg = _tr_arg(found[0].args[0], env, consts)
+            break
+        if isinstance(st, ast.Assign) and len(st.targets) == 1 and isinstance(st.targets[0], ast.Name):
+            tgt, v = st.targets[0].id, st.value
+            if isinstance(v, ast.Call) and isinstance(v.func, ast.Attribute) and v.func.attr == "change_scale":
+                if not (len(v.args) == 1 and isinstance(v.args[0], ast.Constant) and v.args[0].value == "TDB" and not v.keywords):
+                    raise ArgRefused("change_scale to something else than the literal 'TDB'")
+                _, kind = _tr_arg(v.func.value, env, consts)
+                if kind != "view":
+                    raise ArgRefused("change_scale of a number")
+                env[tgt] = ("tdb", "view")
+                continue
+            try:
+                env[tgt] = _tr_arg(v, env, consts)
+            except ArgRefused:
+                env.pop(tgt, None)
+            continue
+        # compound statements / anything else: must not rebind a name the argument may depend on
+        for n in ast.walk(st):
+            if isinstance(n, (ast.Assign, ast.AugAssign, ast.AnnAssign, ast.For, ast.With, ast.NamedExpr)):
+                tg = [n.target] if hasattr(n, "target") else getattr(n, "targets", [])
+                for t in tg:
+                    for nm in ast.walk(t):
+                        if isinstance(nm, ast.Name) and nm.id in env:
+                            raise ArgRefused(f"{nm.id!r} is rebound inside a compound statement")
+    if arg is None or arg[1] != "num":
+        raise ArgRefused("no call of compute_and_differentiate with a numeric argument found")
+    body = ("namespace JplArg\n\n"
+            "/-- what these expressions read of a `Date`: day number and seconds of the day in the date's own scale (`Date.d`, `Date.s`) -/\n"
+            "structure DateView where\n  d : R\n  s : R\n\n"
+            "/-- `Date.mjd` -/\n"
+            f"def dateMjd (x : DateView) : R := {mjd}\n\n"
+            "/-- `Date.jd` -/\n"
+            f"def dateJd (x : DateView) : R := {jd}\n\n"
+            "/-- the argument of `segment.compute_and_differentiate(…)` in `JplPropagator.propagate`: `caller` is the date the\n"
+            "method received (any scale), `tdb` its conversion `date.change_scale(\"TDB\")` -/\n"
+            f"def kernelArg (caller tdb : DateView) : R := {arg[0]}\n\n"
+            "end JplArg\n")
+    return py2lean.instantiate(core.LEAN, "JplArg", body, "beyond/env/jpl.py, beyond/dates/date.py")
 
 
 # ---------------------------------------------------------------- the real code, one kernel configuration per process
@@ -183,17 +323,42 @@ class FakeSPK:
         self.pairs = {(s.center, s.target): s for s in segs}
 
 
-def env(pck=True, fake=None):
-    """configure beyond for the DE403 test kernel (with or without the PCK constant files) and create the frames.
+_JD_LOG = []                # every argument handed to a segment of the kernel since it was last cleared
+
+
+def tap_segments(segs):
+    """record the argument of every `segment.compute_and_differentiate(...)` (the TDB argument of the property statement)"""
+    for sg in {id(x): x for x in segs.values()}.values():
+        if getattr(sg, "_c18_tapped", False):
+            continue
+        orig = sg.compute_and_differentiate
+
+        def tapped(jd, *a, _orig=orig, **k):
+            _JD_LOG.append(float(jd))
+            return _orig(jd, *a, **k)
+        sg.compute_and_differentiate = tapped
+        sg._c18_tapped = True
+
+
+def pole_dir():
+    return os.path.join(core.REPO, "tests", "data", "pole")
+
+
+def env(pck=True, fake=None, eop=False):
+    """eop: the real IERS database of tests/data/pole (leap seconds, UT1-UTC) instead of none at all (policy 'pass': zeros).
+    configure beyond for the DE403 test kernel (with or without the PCK constant files) and create the frames.
     beyond.env.jpl keeps process-wide singletons (Bsp, Pck, frame cache, Center class attributes), so a process
     holds exactly one configuration; the other ones run in worker processes (see `collect`).
     `fake` = [[center, target, A(3), B(3)], ...] installs a synthetic kernel instead of the file (worker only)."""
     if _ENV:
-        if _ENV["pck"] != pck or fake != _ENV["fake"]:
+        if _ENV["pck"] != pck or fake != _ENV["fake"] or _ENV["eop"] != bool(eop):
             raise RuntimeError("one kernel configuration per process")
         return _ENV
     from beyond.config import config
-    config.set("eop", "missing_policy", "pass")
+    if eop:
+        config.update({"eop": {"folder": pole_dir(), "type": "all", "missing_policy": "pass"}})
+    else:
+        config.set("eop", "missing_policy", "pass")
     from beyond.env import jpl
     from jplephem.names import target_names
     if fake is None:
@@ -206,7 +371,8 @@ def env(pck=True, fake=None):
     ids = sorted({i for p in pairs for i in p})
     names = {i: target_names.get(i, "Unknown").title().replace(" ", "") for i in ids}
     segs = jpl.Bsp().pairs
-    _ENV.update(pck=pck, fake=fake, jpl=jpl, pairs=pairs, ids=ids, names=names, segs=segs,
+    tap_segments(segs)
+    _ENV.update(pck=pck, fake=fake, eop=bool(eop), jpl=jpl, pairs=pairs, ids=ids, names=names, segs=segs,
                 span=(max(s.start_jd for s in segs.values()), min(s.end_jd for s in segs.values())))
     return _ENV
 
@@ -258,9 +424,50 @@ def chain_direct(pairs, raw, a, b):
     return vec, mag
 
 
-def make_date(mjd_day, sec):
+SCALES = ["UTC", "UT1", "TAI", "TT", "GPS", "TDB"]
+
+
+def make_date(mjd_day, sec, scale=None):
+    """(day, seconds): a UTC date built by addition; (day, seconds, scale): `Date(day, seconds, scale=scale)`, the clock
+    reading of that scale"""
     from beyond.dates import Date, timedelta
-    return Date(int(mjd_day)) + timedelta(seconds=round(sec, 6))
+    if scale is None:
+        return Date(int(mjd_day)) + timedelta(seconds=round(sec, 6))
+    return Date(int(mjd_day), float(sec), scale=scale)
+
+
+def own_tdb_jd(spec, eop):
+    """the TDB Julian date of the instant a date specification denotes, computed here from the definitions of the scales
+    (TT = TAI + 32.184 s, TAI = GPS + 19 s, TAI = UTC + leap seconds, UT1 = UTC + (UT1-UTC), TDB = TT + periodic term) and
+    the IERS tables read by the independent parser of C03 - or zeros when beyond is configured without a database.
+    Returns (jd, tolerance in days): a double Julian date resolves 47 us; UT1-UTC changes by ~1 ms from day to day."""
+    from harness.props import C03
+    day, sec = int(spec[0]), float(spec[1])
+    scale = spec[2] if len(spec) > 2 and spec[2] else "UTC"
+    if len(spec) == 2:
+        sec = round(sec, 6)
+    if scale == "TDB":
+        return (day + 2400000.5) + sec / 86400.0, 2e-9
+
+    def leap(d):
+        if not eop:
+            return 0.0
+        e = C03.leap_before(d)
+        return e[1] / 1e7 if e else 0.0
+
+    def dut1(d):
+        return C03.tables()[1].get(d, 0) / 1e7 if eop else 0.0
+    if scale == "UTC":
+        tai = sec + leap(day)
+    elif scale == "UT1":
+        utc = sec - dut1(day)
+        dd = day + (1 if utc >= 86400 else -1 if utc < 0 else 0)
+        tai = sec - dut1(dd) + leap(dd)
+    else:
+        tai = sec + {"TAI": 0.0, "TT": -32.184, "GPS": 19.0}[scale]
+    tt = tai + 32.184
+    tdb = tt + C03.tdb_minus_tt_ref(day + tt / 86400.0)
+    return (day + 2400000.5) + tdb / 86400.0, (4e-8 if scale == "UT1" else 2e-9)
 
 
 def real_orbit(e, a, b, date):
@@ -280,6 +487,8 @@ def real_orbit(e, a, b, date):
         return "key-error", None, None
     except AttributeError:
         return "attribute-error", None, None
+    except Exception as ex:  # noqa: BLE001
+        return type(ex).__name__, None, None
     if str(res.frame) != e["names"][b]:
         return "wrong-frame", None, None
     return "ok", [float(x) for x in np.asarray(res)], float(orb.date.jd)
@@ -299,19 +508,22 @@ def real_offset(e, a, b, date):
         return "value-error", None, None
     except KeyError:
         return "key-error", None, None
+    except Exception as ex:  # noqa: BLE001
+        return type(ex).__name__, None, None
     return "ok", [float(x) for x in np.asarray(res)], float(date.change_scale("TDB").jd)
 
 
-def collect_here(pck, dates, eme=True, fake=None):
+def collect_here(pck, dates, eme=True, fake=None, eop=False):
     """all ordered pairs of bodies of the kernel at the given dates, through both public routes.
     returns {"pairs": [...], "ids": [...], "rows": [[kind, a, b, idate, status, vec, jd], ...], "raw": {idate: {c-t: [6]}}}"""
-    e = env(pck, fake)
+    e = env(pck, fake, eop)
     rows = []
     raws = {}
-    for k, (day, sec) in enumerate(dates):
-        d = make_date(day, sec)
+    for k, spec in enumerate(dates):
+        d = make_date(*spec)
         jd = float(d.change_scale("TDB").jd)
-        raws[str(k)] = {"jd": jd, "seg": {f"{c}-{t}": v for (c, t), v in raw_segments(e, jd).items()}}
+        own, tol = own_tdb_jd(spec, e["eop"])
+        raws[str(k)] = {"jd": jd, "own": own, "tol": tol, "seg": {f"{c}-{t}": v for (c, t), v in raw_segments(e, jd).items()}}
         for a in e["ids"]:
             for b in e["ids"]:
                 st, vec, jd1 = real_orbit(e, a, b, d)
@@ -338,15 +550,15 @@ def collect_here(pck, dates, eme=True, fake=None):
             "span": list(e["span"]), "masses": {str(i): float(e["jpl"].get_frame(e["names"][i]).center.body.mass) if e["names"][i] in e["jpl"]._propagator_cache else None for i in e["ids"]}}
 
 
-def collect(pck, dates, eme=True, fake=None, hist=None):
+def collect(pck, dates, eme=True, fake=None, hist=None, eop=False):
     """same as collect_here; the configuration that is not the one of this process runs in a worker process.
     hist = {"seed", "nrandom", "nops"}: also run histories of requests in that process (after the stateless sweep)"""
-    if fake is None and (not _ENV or _ENV["pck"] == pck):
-        res = collect_here(pck, dates, eme)
+    if fake is None and (not _ENV or (_ENV["pck"] == pck and _ENV["eop"] == bool(eop) and _ENV["fake"] is None)):
+        res = collect_here(pck, dates, eme, None, eop)
         if hist:
-            res["hist"] = histories_here(env(pck), hist["seed"], hist["nrandom"], hist["nops"], dates)
+            res["hist"] = histories_here(env(pck, None, eop), hist["seed"], hist["nrandom"], hist["nops"], dates)
         return res
-    req = {"pck": pck, "dates": dates, "eme": eme, "fake": fake}
+    req = {"pck": pck, "dates": dates, "eme": eme, "fake": fake, "eop": eop}
     if hist:
         req["hist"] = dict(hist, dates=dates)
     return run_worker(req)
@@ -356,22 +568,50 @@ def collect_many(jobs, par=6):
     """[collect(**job) for job in jobs]: the configurations that need a process of their own run side by side in worker
     processes while this process works on its own configuration"""
     from concurrent.futures import ThreadPoolExecutor
-    here = lambda j: j.get("fake") is None and (not _ENV or _ENV["pck"] == j["pck"])
+    here = lambda j: j.get("fake") is None and (not _ENV or (_ENV["pck"] == j["pck"] and _ENV["eop"] == bool(j.get("eop")) and _ENV["fake"] is None))
     with ThreadPoolExecutor(max_workers=par) as ex:
         futs = [None if here(j) else ex.submit(collect, **j) for j in jobs]
         res = [collect(**j) if f is None else None for j, f in zip(jobs, futs)]
         return [r if f is None else f.result() for r, f in zip(res, futs)]
 
 
-def gen_dates(rng, n, span=(2451536.5, 2459216.5)):
-    """UTC dates (mjd day, seconds) across the span of the kernel, the two ends included (100 s inside: UTC vs TDB)"""
+def gen_clock(rng):
+    """seconds of the day, boundary-heavy: the last / first 75 s of the day (the conversion to TDB then crosses midnight
+    for UTC, UT1, TAI and GPS readings: TDB leads them by 32.184 s to 69.184 s), the milliseconds around midnight (TT and
+    TDB differ by +-1.7 ms), midnight itself, otherwise anywhere"""
+    r = rng.random()
+    if r < 0.40:
+        return round(86400.0 - rng.uniform(0.0, 75.0), 6)
+    if r < 0.52:
+        return round(rng.uniform(0.0, 75.0), 6)
+    if r < 0.60:
+        return round(86400.0 - rng.uniform(0.0, 0.004), 6)
+    if r < 0.66:
+        return round(rng.uniform(0.0, 0.004), 6)
+    if r < 0.70:
+        return 0.0
+    return round(rng.uniform(0, 86400), 6)
+
+
+def gen_dates(rng, n, span=(2451536.5, 2459216.5), days=None):
+    """dates across the span of the kernel: its two ends (UTC, 200 s inside: UTC vs TDB), then (day, seconds, scale) in all
+    six scales with boundary-heavy clock readings.  days: restrict the day numbers (the span of the IERS tables)"""
     lo = span[0] - 2400000.5
     hi = span[1] - 2400000.5
     out = [(math.floor(lo), (lo - math.floor(lo)) * 86400 + 200.0), (math.floor(hi) - 1, 86400 - 200.0)]
+    dlo, dhi = int(lo) + 1, int(hi) - 2
+    if days:
+        dlo, dhi = max(dlo, days[0]), min(dhi, days[1])
     while len(out) < n:
-        day = rng.randint(int(lo) + 1, int(hi) - 2)
-        out.append((day, round(rng.uniform(0, 86400), 6)))
+        out.append((rng.randint(dlo, dhi), gen_clock(rng), SCALES[len(out) % 6] if rng.random() < 0.7 else rng.choice(SCALES)))
     return out[:n]
+
+
+def eop_days():
+    """day numbers covered by the IERS tables of the test data, a day inside at either end"""
+    from harness.props import C03
+    t = C03.tables()
+    return (t[2] + 2, t[3] - 2)
 
 
 # ---------------------------------------------------------------- histories of requests on the real objects
@@ -399,6 +639,24 @@ def status_of(ex):
     return type(ex).__name__
 
 
+def guarded(fn):
+    """a request that raises where no error is expected (a crash of the code under test, e.g. unbounded recursion) is
+    recorded as the answer of that request and ends the history: the objects may be half modified"""
+    def wrapper(self, *a, **k):
+        if self.dead:
+            return (None, "dead") if fn.__name__ == "asframe" else "dead"
+        try:
+            return fn(self, *a, **k)
+        except Exception as ex:  # noqa: BLE001
+            self.dead = True
+            st = status_of(ex)
+            self.rec["ops"].append({"tok": [fn.__name__] + [str(x) for x in a if isinstance(x, (int, str))], "st": st, "vec": None, "meta": {"crashed": True}})
+            del _JD_LOG[:]
+            return (None, st) if fn.__name__ == "asframe" else st
+    wrapper.__name__ = fn.__name__
+    return wrapper
+
+
 class History:
     """drives the real objects of beyond through a history of requests and records, per request, what came back.
     Bodies and frames are addressed by model codes: NAIF codes, ATT_BASE + n for frames made with as_frame."""
@@ -406,9 +664,23 @@ class History:
     def __init__(self, e, rng, dates):
         self.e, self.rng = e, rng
         self.dates = [make_date(*d) for d in dates]
-        self.jd = [float(d.change_scale("TDB").jd) for d in self.dates]
+        tdb = [d.change_scale("TDB") for d in self.dates]
+        self.jd = [float(d.jd) for d in tdb]
         self.rec = {"pairs": [list(p) for p in e["pairs"]], "att0": [list(a) for a in _ATT], "dates": [list(d) for d in dates], "jd": self.jd,
-                    "raw": [{f"{c}-{t}": v for (c, t), v in raw_segments(e, jd).items()} for jd in self.jd], "ops": [], "pck": e["pck"]}
+                    "raw": [{f"{c}-{t}": v for (c, t), v in raw_segments(e, jd).items()} for jd in self.jd], "ops": [], "pck": e["pck"], "eop": e["eop"],
+                    "own": [list(own_tdb_jd(d, e["eop"])) for d in dates], "arg": []}
+        # the argument the kernel is asked at for each date of this history (the caller's date as it is, in its own scale),
+        # with what Date.d / Date.s show of the caller's date and of its TDB conversion
+        first = e["names"][e["pairs"][0][1]]
+        for d, t in zip(self.dates, tdb):
+            del _JD_LOG[:]
+            try:
+                e["jpl"].get_propagator(first).propagate(d)
+            except Exception:  # noqa: BLE001
+                del _JD_LOG[:]
+            self.rec["arg"].append({"caller": [float(d.d), float(d.s)], "tdb": [float(t.d), float(t.s)], "seen": sorted(set(_JD_LOG))})
+        del _JD_LOG[:]
+        self.dead = False    # a request crashed: nothing more is asked
         self.objs = []       # real objects
         self.info = []       # per object: {"frame": code, "obj":, "cen":, "k":, "loose": bool}
 
@@ -429,6 +701,11 @@ class History:
     def out(self, tok, st, vec, **meta):
         if tok[0] in ("offset", "center") and (tok[2] in _EPH or tok[3] in _EPH):
             meta["loose"] = True        # an interpolated offset (exact at a node up to the rounding of the Lagrange weights)
+        # the arguments the kernel was asked at during this request (not for the Ephem frames, whose nodes are other dates)
+        if tok[0] in ("get", "hand", "offset", "center", "setframe", "copy") and not meta.get("loose") and not _EPH:
+            meta["args"] = sorted(set(_JD_LOG))
+            meta["k"] = int(tok[1]) if tok[0] in ("get", "hand", "offset", "center") else self.info[int(tok[1])]["k"]
+        del _JD_LOG[:]
         self.rec["ops"].append({"tok": [str(t) for t in tok], "st": st, "vec": vec, "meta": meta})
         return st
 
@@ -443,6 +720,7 @@ class History:
         self.info.append({"frame": frame, "obj": obj, "cen": cen, "k": k, "loose": loose})
 
     # ---- requests
+    @guarded
     def get(self, k, a, route=None):
         jpl = self.e["jpl"]
         name = self.e["names"][a]
@@ -480,6 +758,7 @@ class History:
                 return code
         raise RuntimeError("frame without model code: " + name)
 
+    @guarded
     def hand(self, k, o, c):
         """a JplPropagator built by hand: body o as seen from the frame of c, whichever way the file stores the segment"""
         from beyond.frames.frames import get_frame
@@ -502,6 +781,7 @@ class History:
         if str(self.objs[i].form) != "cartesian":
             self.setform(i, "cartesian")
 
+    @guarded
     def setframe(self, i, b):
         self.uncurl(i)
         try:
@@ -512,6 +792,7 @@ class History:
         except Exception as ex:  # noqa: BLE001
             return self.out(["setframe", i, b], status_of(ex), None)
 
+    @guarded
     def setform(self, i, form):
         """in-place change of form: the point represented does not move (not a request of the model)"""
         x, y, z = self.cart(self.objs[i])[:3]
@@ -524,15 +805,18 @@ class History:
         except Exception as ex:  # noqa: BLE001
             return self.out(["setform", i, form], status_of(ex), None)
 
+    @guarded
     def setval(self, i, j, x):
         if str(self.objs[i].form) != "cartesian":
             return None
         self.objs[i][j] = x
         return self.out(["setval", i, j, f2b(x)], "ok", self.cart(self.objs[i]), loose=self.info[i]["loose"], value=x)
 
+    @guarded
     def read(self, i):
         return self.out(["read", i], "ok", self.cart(self.objs[i]), loose=self.info[i]["loose"])
 
+    @guarded
     def copy(self, i, b):
         self.uncurl(i)
         try:
@@ -544,6 +828,7 @@ class History:
         except Exception as ex:  # noqa: BLE001
             return self.out(["copy", i, b], status_of(ex), None)
 
+    @guarded
     def offset(self, k, a, b):
         import numpy as np
         from beyond.orbits import StateVector
@@ -554,6 +839,7 @@ class History:
         except Exception as ex:  # noqa: BLE001
             return self.out(["offset", k, a, b], status_of(ex), None)
 
+    @guarded
     def center(self, k, a, b):
         from beyond.frames.frames import get_frame
         try:
@@ -564,6 +850,7 @@ class History:
         except Exception as ex:  # noqa: BLE001
             return self.out(["center", k, a, b], status_of(ex), None)
 
+    @guarded
     def asframe(self, i, variant=None):
         """objs[i].as_frame(name) / orbit2frame(name, objs[i]); variants: a local orbital orientation (QSW, TNW: the centre
         is the same, only conversions FROM the new frame are then requested, see oriented()), and the frame made from an
@@ -799,7 +1086,7 @@ def histories_here(e, seed, nrandom, nops, dates, exhaustive=True):
         recs += plan_exhaustive(e, rng, dates[:3] if len(dates) <= 4 else dates[:6])
     for i in range(nrandom):
         nd = rng.randint(1, 3)
-        h = History(e, rng, [dates[rng.randrange(len(dates))] for _ in range(nd)] if rng.random() < 0.5 else gen_dates(rng, nd + 2, e["span"])[2:])
+        h = History(e, rng, [dates[rng.randrange(len(dates))] for _ in range(nd)] if rng.random() < 0.5 else gen_dates(rng, nd + 2, e["span"], eop_days() if e["eop"] else None)[2:])
         plan_random(h, nops)
         h.rec["label"] = f"random-{i}"
         recs.append(h.rec)
@@ -829,7 +1116,7 @@ def seq_request(rec):
             toks += [f2b(x) for x in raw[f"{c}-{t}"]]
     idx = []
     for n, op in enumerate(rec["ops"]):
-        if op["tok"][0] == "setform":
+        if op["tok"][0] == "setform" or op["meta"].get("crashed"):
             continue
         toks += op["tok"]
         idx.append(n)
@@ -938,7 +1225,7 @@ def block_tol(vec, ref, mag, rel):
 
 def history_input(rec, n):
     """a concrete failing input: the history up to and including request n"""
-    return {"kernel_pairs": rec["pairs"], "pck": rec.get("pck"), "label": rec.get("label"), "dates_mjd_utc": rec["dates"],
+    return {"kernel_pairs": rec["pairs"], "pck": rec.get("pck"), "eop_database": rec.get("eop"), "label": rec.get("label"), "dates [mjd day, seconds, scale (UTC if none)]": rec["dates"],
             "frames_attached_before [x, link, obj, cen]": rec["att0"][-6:],
             "history": [" ".join(op["tok"]) + ((" via " + op["meta"]["route"]) if "route" in op["meta"] else "") + " -> " + op["st"] for op in rec["ops"][max(0, n - 12):n + 1]]}
 
@@ -949,6 +1236,7 @@ def oracle_histories(out, recs, family=None):
     for rec in recs:
         spec = spec_history(rec)
         last_mut = "none"
+        oracle_arguments(out, rec, family)
         for n, (op, (exp, mag, taint)) in enumerate(zip(rec["ops"], spec)):
             name = op["tok"][0]
             out.count(key=(rec.get("label"), rec["pck"], tuple(rec["pairs"][0]), n, tuple(op["tok"])), kind="hist-" + name, status=op["st"])
@@ -979,8 +1267,53 @@ def oracle_histories(out, recs, family=None):
                 last_mut = name
 
 
+def oracle_arguments(out, rec, family=None):
+    """the TDB argument: for every date of the history (given in any scale, with any clock reading) the kernel is asked at
+    the TDB Julian date of the instant - the one this harness computes itself from the definitions of the scales - and
+    every request of the history asks it at that same argument"""
+    for k, (a, (own, tol)) in enumerate(zip(rec["arg"], rec["own"])):
+        spec = rec["dates"][k]
+        scale = spec[2] if len(spec) > 2 else "UTC"
+        inp = {"date [mjd day, seconds of day, scale]": spec, "eop_database": rec["eop"], "request": f"get_propagator({rec['pairs'][0][1]}).propagate(date)",
+               "Date.d, Date.s of the date": a["caller"], "of its TDB conversion": a["tdb"]}
+        out.count(key=("arg", rec.get("label"), rec["pck"], rec["eop"], tuple(spec)), kind="tdb-argument", scale=scale, crosses_midnight=a["caller"][0] != a["tdb"][0])
+        if len(a["seen"]) != 1:
+            out.fail(family or "spk-tdb-argument-count", "one request asked the kernel at several arguments (or none)", inp, observed=a["seen"], expected=[own])
+            continue
+        if not abs(a["seen"][0] - own) <= tol:
+            sub = "day" if abs(abs(a["seen"][0] - own) - 1.0) < 1e-3 else "value"
+            out.fail(family or f"spk-tdb-argument-{sub}-{scale}", f"the kernel is asked at a Julian date that is not the TDB Julian date of the instant (off by {a['seen'][0] - own:.9f} d)",
+                     inp, observed=a["seen"][0], expected=own)
+    for n, op in enumerate(rec["ops"]):
+        if "args" not in op["meta"] or op["st"] != "ok":
+            continue
+        want = rec["jd"][op["meta"]["k"]]
+        badargs = [x for x in op["meta"]["args"] if x != want]
+        if badargs:
+            out.fail(family or f"spk-hist-{op['tok'][0]}-tdb-argument", f"request '{' '.join(op['tok'])}' asked the kernel at another argument than the TDB Julian date of its date",
+                     history_input(rec, n), observed=badargs, expected=want)
+
+
+def corr_arguments(rec, reqs, meta):
+    """the expression read from the source (Lean `kernelArg`), fed with what Date.d / Date.s show, against the argument seen"""
+    for k, a in enumerate(rec["arg"]):
+        reqs.append("jdarg " + " ".join(f2b(x) for x in a["caller"] + a["tdb"]))
+        meta.append(("arg", rec, k))
+
+
+def compare_argument(out, rec, k, rep):
+    a = rec["arg"][k]
+    spec = rec["dates"][k]
+    out.count(key=("arg", rec.get("label"), rec["pck"], rec["eop"], tuple(spec)), kind="kernel-argument", crosses_midnight=a["caller"][0] != a["tdb"][0])
+    model = b2f(rep) if rep.isdigit() else None
+    if model is None or a["seen"] != [model]:
+        out.fail("spk-argument-model", "the argument handed to jplephem differs from the expression read from the source", {"date": spec, "eop_database": rec["eop"], "caller d,s": a["caller"], "tdb d,s": a["tdb"]},
+                 observed=a["seen"], expected=model if model is not None else rep[:40])
+
+
 def corr_histories(out, recs, reqs, meta):
     for rec in recs:
+        corr_arguments(rec, reqs, meta)
         line, idx = seq_request(rec)
         reqs.append(line)
         meta.append(("hist", rec, idx))
@@ -1080,6 +1413,10 @@ def correspondence(ctx):
     for pck in (True, False):
         jobs.append(dict(pck=pck, dates=dates, hist={"seed": f"k-{ctx.seed}-{pck}", "nrandom": ctx.n(10, 150), "nops": 36}))
         labels.append("de403-pck" if pck else "de403-nopck")
+    # a third configuration: the real IERS database (leap seconds, UT1-UTC) instead of none
+    jobs.append(dict(pck=True, eop=True, dates=gen_dates(rng, ctx.n(3, 16) + 2, days=eop_days())[2:],
+                     hist={"seed": f"k-{ctx.seed}-eop", "nrandom": ctx.n(6, 80), "nops": 36}))
+    labels.append("de403-eop")
     for i in range(ctx.n(8, 60)):
         rooted = i % 2 == 0
         fake = gen_kernel(rng, rooted)
@@ -1094,6 +1431,9 @@ def correspondence(ctx):
     for m, rep in zip(meta, replies):
         if m[0] == "hist":
             compare_history(out, m[1], m[2], rep)
+            continue
+        if m[0] == "arg":
+            compare_argument(out, m[1], m[2], rep)
             continue
         label, kind, a, b, date, st, vec, pairs = m
         inp = {"kernel": label, "pairs": pairs, "op": kind, "a": a, "b": b, "date_mjd_utc": date}
@@ -1163,20 +1503,21 @@ def year_of(day):
 def oracle_spk(out, rng, ndates, nhist):
     """every ordered pair of bodies, both public routes, with and without PCK files, against direct chaining"""
     dates = gen_dates(rng, ndates)
+    edates = gen_dates(rng, ndates + 2, days=eop_days())[2:]
     seed = rng.getrandbits(32)
-    both = collect_many([dict(pck=pck, dates=dates, hist={"seed": f"o-{seed}-{pck}", "nrandom": nhist, "nops": 36}) for pck in (True, False)])
+    both = collect_many([dict(pck=pck, dates=dates, hist={"seed": f"o-{seed}-{pck}", "nrandom": nhist, "nops": 36}) for pck in (True, False)] +
+                        [dict(pck=True, eop=True, dates=edates, hist={"seed": f"o-{seed}-eop", "nrandom": max(4, nhist // 2), "nops": 36})])
     res = {True: both[0], False: both[1]}
-    for pck in (True, False):
-        r = res[pck]
+    for tag, pck, r, ds in (("pck", True, both[0], dates), ("nopck", False, both[1], dates), ("eop", True, both[2], edates)):
         oracle_histories(out, r["hist"])
         pairs = [tuple(p) for p in r["pairs"]]
         targets = {t for _, t in pairs}
         vecs = {}
         for kind, a, b, k, st, vec, jd in r["rows"]:
             raw = {tuple(int(x) for x in key.split("-")): v for key, v in r["raw"][str(k)]["seg"].items()}
-            inp = {"op": kind, "a": a, "b": b, "date_mjd_utc": list(dates[k]), "pck": pck}
-            fam = f"spk-{kind}-{'pck' if pck else 'nopck'}"
-            out.count(key=(kind, a, b, k, pck), nontrivial=a != b, kind=kind, pck=pck)
+            inp = {"op": kind, "a": a, "b": b, "date [mjd day, seconds, scale (UTC if none)]": list(ds[k]), "pck": pck, "eop_database": tag == "eop"}
+            fam = f"spk-{kind}-{tag}"
+            out.count(key=(kind, a, b, k, tag), nontrivial=a != b, kind=kind, config=tag)
             if kind.startswith("orbit") and a not in targets:
                 if st != "unknown-body":
                     out.fail(fam + "-no-propagator", "a body that is the target of no segment has an orbit", inp, observed=st, expected="unknown-body")
@@ -1186,6 +1527,9 @@ def oracle_spk(out, rng, ndates, nhist):
                 continue
             if abs(jd - r["raw"][str(k)]["jd"]) > 0:
                 out.fail(fam + "-tdb-argument", "the orbit's date is not the TDB date of the request", inp, observed=jd, expected=r["raw"][str(k)]["jd"])
+                continue
+            if not abs(jd - r["raw"][str(k)]["own"]) <= r["raw"][str(k)]["tol"]:
+                out.fail(fam + "-tdb-own", "the TDB date of the request is not the TDB Julian date of the instant as computed from the definitions of the scales", inp, observed=jd, expected=r["raw"][str(k)]["own"])
                 continue
             exp, mag = chain_direct(pairs, raw, a, b)
             if kind.startswith("orbit"):
@@ -1205,10 +1549,10 @@ def oracle_spk(out, rng, ndates, nhist):
         for (kind, a, b, k), v in vecs.items():
             if kind == "offset" and a < b and ("offset", b, a, k) in vecs:
                 w = vecs[("offset", b, a, k)]
-                out.count(key=("antisym", a, b, k, pck), kind="antisymmetry", pck=pck)
+                out.count(key=("antisym", a, b, k, tag), kind="antisymmetry", config=tag)
                 if any(abs(x + y) > 1e-12 * (abs(x) + abs(y)) * 8 + 1e-300 for x, y in zip(v, w)):
-                    out.fail(f"spk-antisymmetry-{'pck' if pck else 'nopck'}", "a relative to b is not minus b relative to a",
-                             {"a": a, "b": b, "date_mjd_utc": list(dates[k]), "pck": pck}, observed=v, expected=[-x for x in w])
+                    out.fail(f"spk-antisymmetry-{tag}", "a relative to b is not minus b relative to a",
+                             {"a": a, "b": b, "date": list(ds[k]), "pck": pck, "eop_database": tag == "eop"}, observed=v, expected=[-x for x in w])
     # PCK independence: bit-identical vectors
     ra = {(x[0], x[1], x[2], x[3]): (x[4], x[5]) for x in res[True]["rows"]}
     for x in res[False]["rows"]:
@@ -1330,12 +1674,33 @@ def oracle_series(out, rng, n):
     out.notes.append("worst deviations of the analytical series from DE403 on this run: " + json.dumps({k: float(f"{v:.3g}") for k, v in worst.items()}))
 
 
-def oracle(ctx, widened):
+def open_families():
+    try:
+        kf = json.load(open(os.path.join(core.VERIF, "known_findings.json")))["findings"]
+    except Exception:  # noqa: BLE001
+        return set()
+    return {k["family"] for k in kf if k.get("property") == ID and k.get("status") == "open"}
+
+
+def sweep(ctx, big):
     out = Outcome()
-    big = widened or ctx.thorough
     oracle_spk(out, ctx.rng, 24 if big else 4, 150 if big else 10)
     oracle_synthetic(out, ctx.rng, 40 if big else 5)
     oracle_series(out, ctx.rng, 12000 if big else 300)
+    return out
+
+
+def oracle(ctx, widened):
+    """widened (something above is broken: look harder for a concrete failing input): the ordinary sweep first - it holds
+    the exhaustive families, which discriminate cheaply - and the ten times larger one only when that found nothing new"""
+    out = sweep(ctx, ctx.thorough)
+    if widened and not ctx.thorough:
+        known = open_families()
+        if not any(f["family"] not in known for f in out.failures):
+            more = sweep(ctx, True)
+            more.notes = out.notes + more.notes
+            return more
+        out.notes.append("widened sweep skipped: the ordinary sweep already holds a concrete failing input")
     return out
 
 
@@ -1348,10 +1713,10 @@ def _worker():
     req = json.loads(sys.stdin.read())
     res = {}
     if "dates" in req:
-        res = collect_here(req["pck"], [tuple(d) for d in req["dates"]], req.get("eme", True), req.get("fake"))
+        res = collect_here(req["pck"], [tuple(d) for d in req["dates"]], req.get("eme", True), req.get("fake"), req.get("eop", False))
     if "hist" in req:
         hq = req["hist"]
-        res["hist"] = histories_here(env(req["pck"], req.get("fake")), hq["seed"], hq["nrandom"], hq["nops"], [tuple(d) for d in hq["dates"]])
+        res["hist"] = histories_here(env(req["pck"], req.get("fake"), req.get("eop", False)), hq["seed"], hq["nrandom"], hq["nops"], [tuple(d) for d in hq["dates"]])
     sys.stdout.write("\n@@RESULT@@\n" + json.dumps(res))
 
 
